@@ -9,7 +9,8 @@ package c19
 // reachable on a live server: online label-key change (-> async), mode switch majority <-> dr-auto-sync
 // (-> sync_recover), a dr store that stops heartbeating / comes back followed by a manager tick (VerifTickDR on
 // the live manager: -> async / -> sync_recover), pd leader resignation (the other member becomes the replicating
-// leader). After every step, if dr-auto-sync is served:
+// leader; the program ends with a round trip A -> B -> transition on B -> A, so a member's second term must
+// start from what the other leader persisted). After every step, if dr-auto-sync is served:
 //
 //	the (state, state id) in a StoreHeartbeat response == ModeManager.GetReplicationStatus of the leader
 //	== the record in etcd (read through the harness' own client) == the JSON in <data-dir>/DR_STATE of EVERY
@@ -81,6 +82,9 @@ func genMembers(t *rapid.T) MCase {
 	}
 	// another member replicates: a leader change followed by a transition
 	c.Steps = append(c.Steps, MStep{K: "resign"}, MStep{K: kinds[w(t, "afterResign", 60, 0, 40)]}, MStep{K: "recover"})
+	// leadership round trip: the member that led before leads again after the other one made a transition;
+	// it must serve what the other one persisted, not the state of its earlier term
+	c.Steps = append(c.Steps, MStep{K: "resign"}, MStep{K: kinds[w(t, "afterReturn", 50, 0, 25, 0, 25)]})
 	return c
 }
 
@@ -349,6 +353,7 @@ func runMembers(c MCase) (vkit.Info, error) {
 	var last mbRec
 	lastDR := false
 	transitions, afterMove, moved := 0, 0, false
+	ledBefore := map[string]int{} // member -> number of transitions installed when its last term ended
 	leaderName := x.tc.GetLeader()
 	classes := map[string]bool{}
 	silent := []uint64{}
@@ -452,6 +457,10 @@ func runMembers(c MCase) (vkit.Info, error) {
 				return inconclusive("no running leader after " + desc)
 			}
 			if nl.GetConfig().Name != leaderName {
+				ledBefore[leaderName] = transitions
+				if at, ok := ledBefore[nl.GetConfig().Name]; ok && transitions > at {
+					classes["member-leads-again-after-a-transition-by-another-leader"] = true
+				}
 				moved = true
 				leaderName = nl.GetConfig().Name
 				classes["leader-moved"] = true
